@@ -42,6 +42,10 @@ OBLIGATIONS = [
     "SkVerif.C06.horizon_weight_is_weighted_mean",
     "SkVerif.C06.direct_metrics",
     "SkVerif.C06.multioutput_is_per_column",
+    "SkVerif.C06.relative_metrics",
+    "SkVerif.C06.multioutput_is_per_column_relative_partial",
+    "SkVerif.C06.multioutput_is_per_column_scaled",
+    "SkVerif.C06.scaled_aggregate_is_ratio_of_averages",
     "SkVerif.C06.scaled_scale_invariant",
     "SkVerif.C06.scaled_not_scale_invariant_when_clamped",
     "SkVerif.C06.mdape_weighted_partial",
@@ -60,7 +64,8 @@ ASSUMPTIONS = ["exact arithmetic: theorems are over Rat and say nothing about fl
                "horizon weights and multioutput weights are >= 0 (negative weights: weighted percentile undefined, outside the model)",
                "NaN / inf inputs are rejected by sklearn's check_array before any formula (not modelled)"]
 RULE = ("exhaustive small scope: 18 metrics x option grid x all y_true,y_pred in {-1,0,1}^n, n<=2 (benchmark / training series from a fixed "
-        "small set) (quick: seed-rotated slice); structured random: n<=12, 1-3 output columns, zeros, sign changes, ties, constant and "
+        "small set), plus the 7 median-type metrics x 5 horizon-weight patterns x all y_true,y_pred in {-1,0,2}^3 "
+        "(quick: seed-rotated 1/8 slice); structured random: n<=12, 1-3 output columns, zeros, sign changes, ties, constant and "
         "perfect forecasts, sp<=4, horizon and output weights; class wrappers; malformed stream (shape / weight / sp / option errors); "
         "corpus (EPS-clamp regions, docstring examples, witnesses of the known findings). distinct by driver line; "
         "non-trivial = the real code returned a number (no error) from at least 2 horizon steps")
@@ -767,6 +772,22 @@ def small_scope():
                             out.append(case(m, [t], [p], thr=thr, l=l, r=r, **og))
                     else:
                         out.append(case(m, [t], [p], **og))
+    # n = 3 for the median-type metrics: all y_true, y_pred in {-1, 0, 2}^3 x horizon-weight patterns
+    # (np.median odd length, ties, and every branch of the weighted percentile walk)
+    V3 = (-1.0, 0.0, 2.0)
+    pairs3 = list(itertools.product(itertools.product(V3, repeat=3), repeat=2))
+    hws3 = (None, [1.0, 1.0, 1.0], [1.0, 2.0, 1.0], [0.0, 1.0, 3.0], [2.0, 1.0, 1.0])
+    for m in ("mdae", "mdse", "mdape", "mdspe", "mdase", "mdsse", "mdrae"):
+        for hw in hws3:
+            for sym in ((True, False) if m in PCT else (True,)):
+                for t, p in pairs3:
+                    t, p = list(t), list(p)
+                    if m in SCALED:
+                        out.append(case(m, [t], [p], ytr=[[1.0, -1.0, 0.0, 2.0, 2.0]], sp=2, hw=hw))
+                    elif m == "mdrae":
+                        out.append(case(m, [t], [p], yb=[[0.0, 1.0, -2.0]], hw=hw))
+                    else:
+                        out.append(case(m, [t], [p], hw=hw, sym=sym))
     return out
 
 
@@ -935,7 +956,7 @@ def gen_cases(tier, rng):
     ss = small_scope()
     if tier == "thorough":
         cases = list(ss)
-        nrand, nmal, ncls = 9000, 1500, 900
+        nrand, nmal, ncls = 36000, 5000, 2700
     else:
         step = 8
         off = rng.randrange(step)
